@@ -313,7 +313,8 @@ class StmtMixin:
             label = "*" if n == 1 else f"*{n}"
             return it.elem(label), it.path()
         if isinstance(it, SColl):
-            return self.scoll_elem(it, "*"), it.desc
+            # iteration order of a set of strings follows the hash seed of the process
+            return self.scoll_elem(it, "*"), (f"set({it.desc})" if it.kind == "set" else it.desc)
         if isinstance(it, StrOp) and it.op == "enumerate":
             e, d = self.sym_elem(it.args[0], site)
             idx = Sym({f"index({d})": 1})
@@ -343,7 +344,7 @@ class StmtMixin:
             return Unknown(f"{d}[*]"), d
         if isinstance(it, Hole):
             return Unknown("char"), "text"
-        if isinstance(it, (UPrim, Str)):
+        if isinstance(it, (UPrim, Str)) or (isinstance(it, StrOp) and it.op not in ("enumerate", "zip", "reversed", "chain", "slice", "sorted")):
             return Unknown("char", typ="char"), self.describe(it)
         if isinstance(it, Gen):
             raise AnalysisError("iteration over a generator object")
